@@ -131,7 +131,9 @@ func afPrelude() []afCase {
 		return s
 	}
 	start := func(slug string) afStep { return afStep{Slug: slug, Endpoint: "start", StartOf: afCallbackURI} }
-	tok := func(t string) afIdP { return afIdP{Kind: "ok", Access: "idp-at", RefreshT: "idp-rt", TTL: 600, IDToken: t} }
+	tok := func(t string) afIdP {
+		return afIdP{Kind: "ok", Access: "idp-at", RefreshT: "idp-rt", TTL: 600, IDToken: t}
+	}
 	var flows []afStep
 	flows = append(flows, start("google"), cb("google", nil), signIn("google", good(), "jar", nil, nil))
 	for _, t := range []string{mkIDToken("localadmin", true, 3, false, false), mkIDToken("mallory@x.io@evil.io", true, 3, false, false), mkIDToken("@", true, 3, false, false),
@@ -161,13 +163,45 @@ func afPrelude() []afCase {
 		start("google"), cb("google", func(s *afStep) { s.Csrf = "" }),
 		start("google"), cb("google", func(s *afStep) { s.Csrf = "0000" }),
 		start("google"), cb("google", func(s *afStep) { s.Query = [][2]string{{"code", "c"}, {"state", "!!notbase64"}} }),
-		start("google"), cb("google", func(s *afStep) { s.Query = [][2]string{{"code", "c"}, {"state", base64.URLEncoding.EncodeToString([]byte("nocolon"))}} }),
+		start("google"), cb("google", func(s *afStep) {
+			s.Query = [][2]string{{"code", "c"}, {"state", base64.URLEncoding.EncodeToString([]byte("nocolon"))}}
+		}),
 		start("google"), cb("google", func(s *afStep) { s.Query = [][2]string{{"code", "c"}} }),
 		start("google"), cb("google", func(s *afStep) { s.Query = [][2]string{{"state", "{IDPSTATE}"}} }),
-		start("google"), cb("google", func(s *afStep) { s.Query = [][2]string{{"code", "c"}, {"state", "{IDPSTATE}"}, {"error", "<script>alert(1)</script>"}} }),
+		start("google"), cb("google", func(s *afStep) {
+			s.Query = [][2]string{{"code", "c"}, {"state", "{IDPSTATE}"}, {"error", "<script>alert(1)</script>"}}
+		}),
 		start("google"), cb("google", func(s *afStep) {
 			s.Csrf = "feedface"
 			s.Query = [][2]string{{"code", "c"}, {"state", base64.URLEncoding.EncodeToString([]byte("feedface:https://evil.io/"))}}
+		}),
+		// after a completed sign-in (and with another one pending) a hand-made callback whose state carries an empty nonce, or
+		// the nonce of the flow already completed, rides on whatever the browser still holds
+		start("google"), cb("google", nil),
+		cb("google", func(s *afStep) {
+			s.Query = [][2]string{{"code", "attacker-code"}, {"state", base64.URLEncoding.EncodeToString([]byte(":" + afCallbackURI))}}
+		}),
+		cb("google", func(s *afStep) { s.Query = [][2]string{{"code", "attacker-code"}, {"state", "{IDPSTATE}"}} }),
+		start("google"), cb("google", nil), start("google"),
+		cb("google", func(s *afStep) {
+			s.Query = [][2]string{{"code", "attacker-code"}, {"state", base64.URLEncoding.EncodeToString([]byte(":" + afCallbackURI))}}
+		}),
+		start("okta"),
+		cb("okta", func(s *afStep) {
+			s.Query = [][2]string{{"code", "attacker-code"}, {"state", base64.URLEncoding.EncodeToString([]byte(":" + afCallbackURI))}}
+		}),
+		// the identity provider reports an error (the user cancelled, …): an error page, never a redirect to what the state names
+		cb("google", func(s *afStep) {
+			s.Csrf = ""
+			s.Query = [][2]string{{"error", "access_denied"}, {"state", base64.URLEncoding.EncodeToString([]byte("x:https://evil.io/phish"))}}
+		}),
+		start("google"), cb("google", func(s *afStep) { s.Query = [][2]string{{"error", "access_denied"}, {"state", "{IDPSTATE}"}} }),
+		start("google"), cb("google", func(s *afStep) {
+			s.Query = [][2]string{{"error", "access_denied"}, {"state", base64.URLEncoding.EncodeToString([]byte("x:https://app.x.io.evil.io/"))}, {"code", "c"}}
+		}),
+		cb("okta", func(s *afStep) {
+			s.Csrf = ""
+			s.Query = [][2]string{{"error", "server_error"}, {"error_description", "x"}, {"state", base64.URLEncoding.EncodeToString([]byte("x:https://foo.x.io@evil.io/"))}}
 		}),
 		afStep{Slug: "google", Endpoint: "start", Query: [][2]string{{"redirect_uri", "https://evil.io/"}}},
 		afStep{Slug: "google", Endpoint: "start", Query: [][2]string{{"redirect_uri", "https://" + afHost + "/google/sign_in?redirect_uri=https%3A%2F%2Fevil.io%2F&sig=x&ts=1"}}},
@@ -177,7 +211,10 @@ func afPrelude() []afCase {
 	for _, acc := range []string{"text/plain", "text/plain, */*", "text/*;q=0.9", "application/json", "application/json, text/plain", "*/*", ""} {
 		acc := acc
 		for _, msg := range []string{"<script>alert(1)</script>", "  <b>denied</b>", "<!-- x --><a href=//evil.io>go</a>", "plain denied",
-			"\\u003cscript\\u003e", "a \\u0026 b \\\" c", "back\\slash \\n \\u2028"} {
+			"\\u003cscript\\u003e", "a \\u0026 b \\\" c", "back\\slash \\n \\u2028",
+			// messages that are themselves JSON documents, whole or followed by more text
+			"{\"error\":\"access_denied\"}", "{\"error\":\"access_denied\"}<script>alert(1)</script>", "{\"error\":\"invalid_grant\"} (HTTP 400)", "{}x", "[1,2]<b>",
+			"\"quoted\" tail", "{\"a\":{\"b\":[1,{\"c\":null}]}}}}", "{\"unterminated\":", "null", "true false", "1e5<i>"} {
 			msg := msg
 			flows = append(flows, start("google"), cb("google", func(s *afStep) {
 				s.Query = [][2]string{{"code", "c"}, {"state", "{IDPSTATE}"}, {"error", msg}}
@@ -332,7 +369,67 @@ func afPrelude() []afCase {
 	out.Roots = []string{".apps.y.io"}
 	cases = append(cases, out)
 	cases = append(cases, afCase{ConfigCheck: true})
+	// each provider's Redeem, called directly
+	okTok := afIdP{Kind: "ok", Access: "idp-at", RefreshT: "idp-rt", TTL: 600, IDToken: mkIDToken("ann@x.io", true, 3, false, false)}
+	okUser := afIdP{Kind: "ok", Email: "ann@x.io", Verified: true}
+	var pr []afProvRedeem
+	for _, prov := range []string{"google", "okta", "cognito"} {
+		pr = append(pr,
+			afProvRedeem{Provider: prov, Code: "c", Token: okTok, User: okUser},
+			afProvRedeem{Provider: prov, Code: "", Token: okTok, User: okUser},
+			afProvRedeem{Provider: prov, Code: "c", Token: afIdP{Kind: "status", Status: 400, ErrDesc: "invalid_grant"}, User: okUser},
+			afProvRedeem{Provider: prov, Code: "c", Token: afIdP{Kind: "status", Status: 503}, User: okUser},
+			afProvRedeem{Provider: prov, Code: "c", Token: afIdP{Kind: "transport"}, User: okUser},
+			afProvRedeem{Provider: prov, Code: "c", Token: afIdP{Kind: "raw", Raw: "{\"access_token\": 5"}, User: okUser},
+			afProvRedeem{Provider: prov, Code: "c", Token: afIdP{Kind: "raw", Raw: "[]"}, User: okUser},
+			afProvRedeem{Provider: prov, Code: "c", Token: afIdP{Kind: "ok", Access: "", RefreshT: "rt", TTL: 600, IDToken: okTok.IDToken}, User: okUser},
+			afProvRedeem{Provider: prov, Code: "c", Token: okTok, User: afIdP{Kind: "ok", Email: "ann@x.io", Verified: false}},
+			afProvRedeem{Provider: prov, Code: "c", Token: okTok, User: afIdP{Kind: "ok", Email: "", Verified: true}},
+			afProvRedeem{Provider: prov, Code: "c", Token: okTok, User: afIdP{Kind: "status", Status: 401}},
+			afProvRedeem{Provider: prov, Code: "c", Token: okTok, User: afIdP{Kind: "transport"}},
+			afProvRedeem{Provider: prov, Code: "c", Token: okTok, User: afIdP{Kind: "raw", Raw: "{\"email\": \"ann@x.io\""}},
+			afProvRedeem{Provider: prov, Code: "c", Token: okTok, User: afIdP{Kind: "raw", Raw: "null"}},
+		)
+		for _, t := range []string{"", "nodots", "a.b", "a.b.c", "a..c", ".", "..", "a.!!!.c", "a." + base64.RawURLEncoding.EncodeToString([]byte("{}")) + ".c",
+			"a." + base64.RawURLEncoding.EncodeToString([]byte(`{"email":"ann@x.io"}`)) + ".c",
+			"a." + base64.RawURLEncoding.EncodeToString([]byte(`{"email":"ann@x.io","email_verified":"true"}`)) + ".c",
+			"a." + base64.StdEncoding.EncodeToString([]byte(`{"email":"ann@x.io","email_verified":true}`)) + ".c"} {
+			tk := okTok
+			tk.IDToken = t
+			pr = append(pr, afProvRedeem{Provider: prov, Code: "c", Token: tk, User: okUser})
+		}
+		// a genuine id_token cut short at every length (a truncated answer)
+		full := mkIDToken("ann@x.io", true, 3, false, false)
+		for cut := 0; cut < len(full); cut += 1 {
+			tk := okTok
+			tk.IDToken = full[:cut]
+			if prov == "google" || cut%7 == 0 {
+				pr = append(pr, afProvRedeem{Provider: prov, Code: "c", Token: tk, User: okUser})
+			}
+		}
+	}
+	cases = append(cases, afCase{ProvRedeem: pr})
+	cases = append(cases, afCase{Overlap: 150})
 	return cases
+}
+
+func afRandIdP(rng *rand.Rand, emails []string, userinfo bool) afIdP {
+	switch rng.Intn(10) {
+	case 0:
+		return afIdP{Kind: "status", Status: []int{400, 401, 403, 404, 429, 500, 502, 503, 201, 204, 302}[rng.Intn(11)], ErrDesc: []string{"", "Token expired or revoked", "invalid_grant"}[rng.Intn(3)]}
+	case 1:
+		return afIdP{Kind: "transport"}
+	case 2:
+		return afIdP{Kind: "raw", Raw: []string{"", "{", "[]", "null", "\"x\"", "{\"access_token\":1}", "{\"email\":{}}", "{\"email\":\"ann@x.io\"", "<html>"}[rng.Intn(9)]}
+	}
+	if userinfo {
+		return afIdP{Kind: "ok", Email: emails[rng.Intn(len(emails))], Verified: rng.Intn(3) > 0}
+	}
+	tok := mkIDToken(emails[rng.Intn(len(emails))], rng.Intn(3) > 0, rng.Intn(5), rng.Intn(8) == 0, rng.Intn(8) == 0)
+	if rng.Intn(4) == 0 && len(tok) > 0 {
+		tok = tok[:rng.Intn(len(tok))] // truncated
+	}
+	return afIdP{Kind: "ok", Access: []string{"idp-at", "idp-at", "idp-at", ""}[rng.Intn(4)], RefreshT: []string{"idp-rt", ""}[rng.Intn(2)], TTL: []int64{600, 0, -5, 3600}[rng.Intn(4)], IDToken: tok}
 }
 
 func init() {
@@ -370,6 +467,15 @@ func init() {
 			pool = append(pool, c.Steps...)
 		}
 		for k := 0; k < n; k++ {
+			if rng.Intn(8) == 0 {
+				var pr []afProvRedeem
+				for i := 0; i < 12; i++ {
+					pr = append(pr, afProvRedeem{Provider: []string{"google", "okta", "cognito"}[rng.Intn(3)], Code: []string{"c", "c", "c", ""}[rng.Intn(4)],
+						Token: afRandIdP(rng, emails, false), User: afRandIdP(rng, emails, true)})
+				}
+				emit(afCase{ProvRedeem: pr})
+				continue
+			}
 			c := afCase{Domains: []string{"x.io"}, Roots: []string{"x.io", ".apps.y.io"}}
 			if rng.Intn(6) == 0 {
 				c.Domains, c.Addresses = nil, []string{"ann@x.io"}
@@ -400,6 +506,9 @@ func init() {
 				}
 				if rng.Intn(6) == 0 {
 					s.Token.IDToken = mkIDToken(emails[rng.Intn(len(emails))], rng.Intn(3) > 0, rng.Intn(5), rng.Intn(8) == 0, rng.Intn(8) == 0)
+					if rng.Intn(4) == 0 && len(s.Token.IDToken) > 0 {
+						s.Token.IDToken = s.Token.IDToken[:rng.Intn(len(s.Token.IDToken))] // a truncated answer
+					}
 				}
 				if rng.Intn(10) == 0 {
 					s.User = afIdP{Kind: "ok", Email: emails[rng.Intn(len(emails))], Verified: rng.Intn(3) > 0}
